@@ -24,10 +24,18 @@ func boundaryAmounts(gs *pokerface.GameState, seat int) []int64 {
 // error and without effect. Quick samples a few pairs per step, thorough
 // more, replay all of them.
 func (r *run) probes(d *delivery, cl opClass, accepted bool) {
-	if !r.on("C04") || r.dead {
+	gs := r.srv.state()
+	prop := "C04"
+	if !r.on("C04") {
+		// C06: a closed hand accepts nothing
+		if !r.on("C06") || gs.Status.CurrentEvent != "GameClosed" {
+			return
+		}
+		prop = "C06"
+	}
+	if r.dead {
 		return
 	}
-	gs := r.srv.state()
 	n := len(gs.Players)
 	type pr struct {
 		actor, op string
@@ -46,7 +54,7 @@ func (r *run) probes(d *delivery, cl opClass, accepted bool) {
 	if r.thorough {
 		budget = 10
 	}
-	if r.replay {
+	if r.replay || prop == "C06" {
 		budget = len(all)
 	}
 	h := sim.Mix(uint64(d.idx), 0xc04, uint64(len(r.steps)))
@@ -79,16 +87,16 @@ func (r *run) probes(d *delivery, cl opClass, accepted bool) {
 		after := marshalNorm(clone.GetState())
 		changed := string(after) != string(r.srv.durable)
 		if pan != "" {
-			r.viol("C04", "panic: illegitimate "+st.Op+" ("+c.kind+")", fmt.Sprintf("probe %s at %s: %s", st, fmtState(gs), pan), d.idx)
+			r.viol(prop, "panic: illegitimate "+st.Op+" ("+c.kind+")", fmt.Sprintf("probe %s at %s: %s", st, fmtState(gs), pan), d.idx)
 			clone = nil
 			continue
 		}
 		if err == nil {
-			r.viol("C04", fmt.Sprintf("refusal/no-error: op=%s class=%s", st.Op, c.kind),
+			r.viol(prop, fmt.Sprintf("refusal/no-error: op=%s class=%s", st.Op, c.kind),
 				fmt.Sprintf("probe %s at %s returned nil (state %s)", st, fmtState(gs), map[bool]string{true: "changed", false: "unchanged"}[changed]), d.idx)
 		}
 		if changed {
-			r.viol("C04", fmt.Sprintf("refusal/state-changed: op=%s class=%s", st.Op, c.kind),
+			r.viol(prop, fmt.Sprintf("refusal/state-changed: op=%s class=%s", st.Op, c.kind),
 				fmt.Sprintf("probe %s at %s changed the state: %s", st, fmtState(gs), firstDiff(after, r.srv.durable)), d.idx)
 			clone = nil
 		}
